@@ -7,6 +7,7 @@ PROPS["C14"] = dict(
     theorems=[
         "Kust.C14.setfield_get", "Kust.C14.setfield_frame", "Kust.C14.setfield_idem",
         "Kust.C14.clear_absent_noop", "Kust.C14.clear_frame", "Kust.Fns.pathGet_nocreate_doc",
+        "Kust.C14.create_then_lookup",
     ],
     components=["fns.lookup", "fns.setfield", "fns.clear", "fns.setelem", "fieldspec.apply"],
     oracle=False,
@@ -215,7 +216,7 @@ PROPS["C10"] = dict(
     modules=["Kust.Props.C10"],
     theorems=["Kust.C10.image_match_exact", "Kust.C10.rest_starts_tag_or_digest", "Kust.C10.match_has_prefix", "Kust.C10.unmatched_untouched",
               "Kust.C10.stripPrefix_iff", "Kust.C10.Witness.old_regex_name_matched_other_image"],
-    components=["image.update", "image.split"],
+    components=["image.update", "image.split", "repl.apply"],
     oracle=True,
     n_corr={"quick": 4000, "thorough": 40000}, n_oracle={"quick": 1200, "thorough": 15000},
     technique="Lean 4 proof (image reference matching is literal-prefix + tag/digest grammar: exact characterisation, never a longer or shorter name) + Go/Lean correspondence of the imagetag filter and Split + near-miss selection oracle for patch targets, images, replicas and replacements on whole builds",
